@@ -288,6 +288,50 @@ def extCoresOK (r : Rec) (rule : RuleM) (got : List Iv) : Bool :=
       !inside.isEmpty && (minList (inside.map (·.1)), maxList (inside.map (·.2))) == g
   | _, _ => false
 
+/-! #### EXTENDERS on a ring: the walk goes on round the record -/
+
+/-- the genes before the core nearest first, continuing from the end of the record round to the core;
+    the genes from the core on, continuing from the start of the record -/
+def walkBackRing (r : Rec) (core : Loc) : List GeneInfo :=
+  let idx := (r.genes.takeWhile fun g => ltLoc' g.loc core).length
+  (r.genes.take idx).reverse ++ (r.genes.drop (idx + 1)).reverse
+def walkForwardRing (r : Rec) (core : Loc) : List GeneInfo :=
+  let idx := (r.genes.takeWhile fun g => ltLoc' g.loc core).length
+  r.genes.drop idx ++ r.genes.take idx
+
+/-- the span of a core and further genes on a ring (`connect_locations`, C04: covers its inputs, a
+    well-formed area, the shortest arc when that is less than half of the ring) -/
+def joinRing (r : Rec) (core : Loc) (gs : List GeneInfo) : Option Loc :=
+  gs.foldlM (fun c g => (connect [g.loc, c] (some r.len)).toOption) core
+
+/-- on a circular record: a chain's core together with the genes its rule's EXTENDERS clause admits,
+    walking outwards both ways round the ring from the first / last gene inside the core, distances
+    measured the shorter way round -/
+def extendedCoreRing (r : Rec) (rule : RuleM) (chain : List GeneInfo) : Option Loc := do
+  let core ← (connect (chain.map (·.loc)) (some r.len)).toOption
+  let inside := withinSpec r core false
+  let first ← inside.head?
+  let last ← inside.getLast?
+  let dist := fun (a b : GeneInfo) => specDistFull r.len a.loc b.loc
+  let back := specWalk rule.cutoff dist (extOK rule) (fun g => locationContainsOther core g.loc) first (walkBackRing r core)
+  let core1 ← joinRing r core back
+  let forw := specWalk rule.cutoff dist (extOK rule) (fun g => locationContainsOther core1 g.loc) last (walkForwardRing r core)
+  joinRing r core1 forw
+
+/-- ring: every reported core of a rule with EXTENDERS is the span of the extended cores of the chains
+    it covers -/
+def extCoresRingOK (r : Rec) (rule : RuleM) (mine : List ImplPC) : Bool :=
+  let chains := chainsOf r rule
+  mine.all fun pc =>
+    let covered := chains.filter fun c => subsetIvs (unionCanon r.len (c.map (·.loc))) pc.core.canon
+    match covered.mapM (extendedCoreRing r rule) with
+    | none => false
+    | some [] => false
+    | some exts =>
+      match (connect exts (some r.len)).toOption with
+      | some expected => expected.canon == pc.core.canon
+      | none => false
+
 def verdictRule (r : Rec) (rules : List RuleM) (impl : List ImplPC) (rule : RuleM) : Verdict :=
   let chains := chainsOf r rule
   let mine := impl.filter (·.rule == rule.name)
@@ -307,6 +351,8 @@ def verdictRule (r : Rec) (rules : List RuleM) (impl : List ImplPC) (rule : Rule
   else if !(chains.all fun c => (mine.filter fun pc => coreCovers r pc.core c).length ≤ 1) then
     { stats with ok := false, why := s!"{rule.name}: a chain lies in more than one protocluster" }
   else if !plain && !r.circular && !extCoresOK r rule (mine.map fun pc => (pc.core.start, pc.core.end)) then
+    { stats with ok := false, why := s!"{rule.name}: a core is not its chain plus the genes admitted by EXTENDERS" }
+  else if !plain && r.circular && !extCoresRingOK r rule mine then
     { stats with ok := false, why := s!"{rule.name}: a core is not its chain plus the genes admitted by EXTENDERS" }
   else
     -- chains without a protocluster / with one: the superiors clause
